@@ -73,7 +73,7 @@ def write_inputs(ctx, name, items):
     return path
 
 
-def monitor_sharded(ctx, target, items, shards=8, mem_kb=6000000, timeout=3000):
+def monitor_sharded(ctx, target, items, shards=8, mem_kb=6000000, timeout=9000):
     """Splits the inputs over several isolated workers running in parallel; returns (trace path, fatal count)."""
     import threading
     shards = max(1, min(shards, len(items) // 50 or 1))
@@ -105,7 +105,7 @@ def monitor_sharded(ctx, target, items, shards=8, mem_kb=6000000, timeout=3000):
     return trace_all, fat
 
 
-def monitor(ctx, target, inputs_path, n_inputs, mem_kb=8000000, timeout=3000, tag=""):
+def monitor(ctx, target, inputs_path, n_inputs, mem_kb=8000000, timeout=9000, tag=""):
     """Runs the worker; when it dies (fatal error, watchdog) the input named in the progress file is
     recorded as fatal and the worker restarted after it."""
     trace_all = os.path.join(ctx.specdir, "trace%s.ndjson" % tag)
